@@ -324,7 +324,7 @@ pub fn check_contract(name: &str, dir: &Path, file: &str, level: &str, allow: &[
     };
     if run.timed_out || run.killed_by_signal.is_some() || run.panicked() {
         push(
-            run.panic_signature().unwrap_or_else(|| "crash".into()),
+            if run.timed_out { "hang/contract".to_string() } else { run.panic_signature().unwrap_or_else(|| "crash".into()) },
             format!("the binary crashed or hung on corpus project {name}"),
             "exit status 0 or 1".into(),
             format!("exit {:?} signal {:?} timeout {} stderr {}", run.exit, run.killed_by_signal, run.timed_out, crate::infra::truncate(&run.stderr, 300)),
@@ -571,6 +571,9 @@ pub fn run(run: &Run) {
         let unfiltered_diags = unfiltered.diagnostics.clone();
         par_each(&configs, |i, (level, allow, verbose, sarif)| {
             let case = json!({"kind": "contract", "corpus": name, "level": level, "allow": allow, "verbose": verbose, "sarif": sarif});
+            if run.too_many_hangs() {
+                return;
+            }
             run.watch(&case);
             let sub = dir.join(format!("w{i}"));
             let _ = std::fs::create_dir_all(&sub);
